@@ -1,5 +1,5 @@
 (* Corr/C35.v — the C35 case: the set of lock-acquisition patterns observed on the real code over all
-   generated workloads (lock ids per the harness table, held set sorted), the rank table the harness
+   generated workloads (lock ids per the harness table, modes MR / MW / MTry, held set sorted), the rank table the harness
    computed for it and the gate lock (write_lock).  `ok` = the certificate check of Conc/LockOrder.v,
    so by C35_observed_patterns_partial no state built from these patterns is deadlocked. *)
 From NDB Require Export Conc.LockOrder Corr.Common.
